@@ -1,0 +1,64 @@
+//go:build verif
+
+package tbtree
+
+import "github.com/codenotary/immudb/embedded/appendable"
+
+// VerifCLogEntry runs cLogEntry.deserialize and isValid on a commit-log entry (cLogEntrySize bytes;
+// deserialize clears the flag bit of b[0]).
+func VerifCLogEntry(b []byte) (synced bool, initialNLogSize, finalNLogSize int64, rootNodeSize int,
+	nLogChecksum [32]byte, initialHLogSize, finalHLogSize int64, hLogChecksum [32]byte, valid bool) {
+	e := &cLogEntry{}
+	e.deserialize(b)
+	return e.synced, e.initialNLogSize, e.finalNLogSize, e.rootNodeSize, e.nLogChecksum,
+		e.initialHLogSize, e.finalHLogSize, e.hLogChecksum, e.isValid()
+}
+
+const VerifCLogEntrySize = cLogEntrySize
+
+type VerifNodeRef struct {
+	MinKey      []byte
+	Ts          uint64
+	Off, MinOff int64
+}
+
+type VerifLeafValue struct {
+	Key, Value []byte
+	Ts         uint64
+	HOff       int64
+	HCount     uint64
+}
+
+// VerifReadNode runs readNodeAt(off) on the nodes log nLog with the read buffer size maxNodeSize.
+func VerifReadNode(nLog appendable.Appendable, off int64, maxNodeSize int) (inner bool, refs []VerifNodeRef, vals []VerifLeafValue, err error) {
+	t := &TBtree{nLog: nLog, maxNodeSize: maxNodeSize}
+	n, err := t.readNodeAt(off)
+	if err != nil {
+		return false, nil, nil, err
+	}
+	switch x := n.(type) {
+	case *innerNode:
+		inner = true
+		refs = []VerifNodeRef{}
+		for _, c := range x.nodes {
+			r := c.(*nodeRef)
+			refs = append(refs, VerifNodeRef{r._minKey, r._ts, r.off, r._minOff})
+		}
+	case *leafNode:
+		vals = []VerifLeafValue{}
+		for _, v := range x.values {
+			vals = append(vals, VerifLeafValue{v.key, v.timedValues[0].Value, v.timedValues[0].Ts, v.hOff, v.hCount})
+		}
+	}
+	return
+}
+
+// VerifParams: the parameters OpenWith took from the commit-log metadata (or the options).
+func VerifParams(t *TBtree) (maxNodeSize, maxKeySize, maxValueSize int) {
+	return t.maxNodeSize, t.maxKeySize, t.maxValueSize
+}
+
+// VerifReadTs runs readTsFile on path/tsFile.
+func VerifReadTs(path, tsFile string) uint64 {
+	return (&TBtree{path: path, tsFile: tsFile}).readTsFile()
+}
